@@ -13,7 +13,7 @@ def run(prop, tier, seed, replay=None):
         if replay and "scenario" in json.load(open(replay)).get("replay", {}):
             return sched_checks._run("C08", tier, seed, replay, rep, vh, work)      # a scheduler-rig scenario of the label stage
         binary = vp.build_binary(os.path.join(work, "blackdagger"))
-        cfgs = ["MC_C08.cfg", "MC_C08_two.cfg"] if prop == "C08" else ["MC_C16.cfg"]
+        cfgs = ["MC_C08.cfg", "MC_C08_two.cfg"] if prop == "C08" else ["MC_C16.cfg", "MC_C16_crash.cfg", "MC_C16_three.cfg"]
         states, transitions, runs = rc.model_check(work, "AgentLife", cfgs, workers=4)
         rec = os.path.join(work, "records.ndjson")
         env = dict(vp.GOENV, TMPDIR=work)
